@@ -83,7 +83,7 @@ Proof.
   apply pair_eqb_eq in H1. apply (opt_eqb_eq _ ap_eqb_eq) in H2. apply (opt_eqb_eq _ h_eqb_eq) in H3. apply IH in H4. now subst.
 Qed.
 
-Lemma snap_eqb_eq a b : snap_eqb a b = true -> a = b.
+Lemma snap_eqb_eq a b : snap_eqb a b = true -> s_txbytes a = s_txbytes b -> a = b.
 Proof.
   unfold snap_eqb. intros H. repeat (apply andb_true_iff in H; destruct H as [H ?]).
   repeat match goal with
@@ -95,7 +95,7 @@ Proof.
          | h : (_ =? _) = true |- _ => apply N.eqb_eq in h
          | h : Bool.eqb _ _ = true |- _ => apply Bool.eqb_prop in h
          end.
-  destruct a, b. cbn in *. subst. reflexivity.
+  intros Hb. destruct a, b. cbn in *. subst. reflexivity.
 Qed.
 
 (* ------------------------------------------------------------------ C18 oracle *)
@@ -156,7 +156,8 @@ Proof.
            | h : (_ =? _) = true |- _ => apply N.eqb_eq in h
            end.
     auto.
-  - apply N.eqb_neq in Hc. split; [|intros He; contradiction]. intros _. now apply snap_eqb_eq.
+  - apply N.eqb_neq in Hc. split; [|intros He; contradiction]. intros _.
+    apply andb_true_iff in H. destruct H as [H1 H2]. apply N.eqb_eq in H2. now apply snap_eqb_eq.
 Qed.
 
 Lemma last_default {A} (l : list A) d d' : l <> [] -> last l d = last l d'.
